@@ -38,6 +38,20 @@ def spec_programs(wd, tier, res):
     with open(os.path.join(d, "SyntaxData.tla"), "w") as f:
         f.write("---- MODULE SyntaxData ----\nMaxOps == 2\nMaxOpsDeep == %d\nDeepSyms == %s\nSeed == %d\nNCompose == %d\n====\n"
                 % (deep, to_tla_set(DEEP_SYMS), seed() % 100000, 40 if tier == "quick" else 400))
+    # developer knob (mutation experiments only, never set by MANIFEST commands): reuse TLC's output of an identical
+    # specification + data module instead of running TLC again
+    cache = os.environ.get("VERIF_C15_TLC_CACHE")
+    key = None
+    if cache:
+        h = hashlib.sha256()
+        for fn in ("Syntax.tla", "MC_Syntax.tla", "MC_Syntax.cfg", "Functors.tla", "Word32.tla"):
+            h.update(open(os.path.join(SPEC, fn), "rb").read())
+        h.update(open(os.path.join(d, "SyntaxData.tla"), "rb").read())
+        key = os.path.join(cache, h.hexdigest() + ".json")
+        if os.path.exists(key):
+            c = json.load(open(key))
+            res.add_tlc(c["counts"]); res.cov["tlc_output_reused_from_cache"] = True
+            return c["progs"], set(c["kinds"])
     # JDK_JAVA_OPTIONS (not JAVA_TOOL_OPTIONS): the catalogue is evaluated once at start-up on the main thread, whose
     # stack size the launcher only takes from the command line / JDK_JAVA_OPTIONS; Word32's recursions are deep.
     r = tlc.run_tlc(os.path.join(SPEC, "MC_Syntax.tla"), os.path.join(SPEC, "MC_Syntax.cfg"), d, lib=d, timeout=2400,
@@ -51,6 +65,9 @@ def spec_programs(wd, tier, res):
     for j in r["json"]:
         if isinstance(j, dict) and j.get("tag") == "KINDS":
             kinds = set(j["kinds"])
+    if key:
+        os.makedirs(cache, exist_ok=True)
+        json.dump({"progs": progs, "kinds": sorted(kinds), "counts": {"distinct": r["distinct"], "generated": r["generated"]}}, open(key, "w"))
     return progs, kinds
 
 # ---------------------------------------------------------------------------------------------- pipeline
@@ -229,8 +246,9 @@ def do_probe(ctx, j, idx):
     d = os.path.join(ctx.wd, "probe", re.sub(r"[^\w.-]", "_", "%s@%s" % (K, j["variant"])))
     r = pipeline(os.path.join(d, "raw"), text, set(), j["expect"])
     out = {"kind": K, "variant": j["variant"], "raw": r, "text": text, "dir": d, "repaired": None}
-    if r["status"] == "fail" and K in ctx.listed and K in sg.REPAIRABLE:
-        out["repaired"] = pipeline(os.path.join(d, "repaired"), text, {K}, j["expect"])
+    used = set(j["kinds"]) & ctx.listed
+    if r["status"] == "fail" and K in ctx.listed and used <= sg.REPAIRABLE:
+        out["repaired"] = pipeline(os.path.join(d, "repaired"), text, used, j["expect"])
     return out
 
 def do_prog(ctx, j, name, text, kinds, expect=(), cases=None, P=None):
@@ -253,8 +271,9 @@ def run(tier, replay=None):
     wd = workdir(PID)
     ctx = Ctx(res, wd, listed); ctx.kf = kf
     progs, catalogue = spec_programs(wd, tier, res)
-    probes = [j for j in progs if j["family"] == "probe"]
-    others = [j for j in progs if j["family"] != "probe"]
+    fams = set((os.environ.get("VERIF_C15_FAMILIES") or "probe,tree,compose,gen").split(","))    # developer knob
+    probes = [j for j in progs if j["family"] == "probe" and "probe" in fams]
+    others = [j for j in progs if j["family"] != "probe" and j["family"] in fams]
     rng = random.Random(seed() * 7919 + 15)
     pool = cf.ThreadPoolExecutor(NCPU)
     # ---- (a) probes -------------------------------------------------------------------------------
@@ -314,7 +333,8 @@ def run(tier, replay=None):
         if fam == "compose" and r["status"] == "ok":
             res.sample({"family": "compose", "parts": j["parts"], "program": text, "expect": j["expect"], "result": "ok"}, limit=6)
     # ---- (d) generator stream ------------------------------------------------------------------------
-    gen_stream(ctx, res, tier, wd, pool, rng, failing)
+    if "gen" in fams:
+        gen_stream(ctx, res, tier, wd, pool, rng, failing)
     pool.shutdown()
     res.cov.update({"evaluations": ctx.evals, "distinct_nontrivial": len(ctx.nontrivial),
                     "rule": "a case is one program text taken through print -> parse -> print -> RAM_initial equality -> outputs; "
